@@ -163,7 +163,9 @@ other(
     "entry of the format in the pre-state history; result == not failed), _validate_new_hash_list, the child-history mapping and "
     "nearest-ancestor routing, lemmas L_first_excl / L_orig_excl. Bounded: the planning half of seal_file_path is proved (region `plan`), its judging half is bounded (region `judge`: 307-308 of 308 obligations "
     "discharge: not counted) and the command loops, on all format-subset "
-    "sequences of length 3 with content kept / altered / restored.",
+    "sequences of length 3 with content kept / altered / restored, and rename-then-create sequences with -dr."
+    " Heap frames (vf/statics.py): every store to the action / hash_string / hash_format / hash_entries fields anywhere in the package sits in a function whose declared frame contains the field, so what the contracts establish is not rewritten behind their back.",
+    static=True,
     assumptions=["the session's new hash lists are disjoint from the loaded history's lists (ownership, structural)"],
 )
 other(
@@ -179,8 +181,10 @@ other(
     "Proved: hash_of_hash_list (digest of the concatenated decoded digests of the SORTED list, empty list = empty input, for all "
     "seven classes), DirectoryHashContext.append_file_hash / append_directory_hashes (structure entry = digest(utf8(name) + "
     "decode(child STRUCTURE hash))), final_content/structure_hash_str, the C4 and hex codecs (C01) incl. induction lemmas. "
-    "Bounded: the command loops feeding the contexts (create, verify -dh) against an independent implementation of the definition.",
+    "Bounded: the command loops feeding the contexts (create, verify -dh) against an independent implementation of the definition."
+    " Heap frames (vf/statics.py): every store to hash_string / structure_hash_string / hash_format / hash_entries anywhere in the package sits in a function whose declared frame contains the field, so what the contracts establish is not rewritten behind their back.",
     lemmas=True,
+    static=True,
     assumptions=["collision resistance (CR) for the 'changes whenever' clauses", "os.path.basename/normpath of a path give its last component"],
 )
 other(
@@ -252,13 +256,15 @@ other("C16", "Proved: the manifest name carries strftime(now(timezone.utc)) (gro
       static=True,
       assumptions=["datetime / time zone database: naive.astimezone() attaches the offset in force at that local time (fold-aware)"])
 other("C17", "Proved: find_hash_entry_for_format, find_first_hash_entry_for_path (used to match renamed files). Bounded: the rename "
-      "matching region of create -dr and the follow-up commands on all sets of simultaneous renames / moves.")
+      "matching region of create -dr and the follow-up commands on all sets of simultaneous renames / moves."
+      " Heap frames (vf/statics.py): every store to previous_path anywhere in the package sits in a function whose declared frame contains the field, so what the contracts establish is not rewritten behind their back.", static=True)
 other("C18", "Proved: one iteration of the merge loop of flatten_history as a region contract, for an arbitrary recorded entry and arbitrary "
       "contents of the collection so far - a failed entry is never copied; an entry is copied (format, digest, action unchanged) exactly if "
       "the collection's record for the path has no entry of that format yet, so the earliest entry that did not fail is the one kept and it "
       "is the only one of its format; otherwise the record keeps its entries; append_file_hash with an action override, "
       "find_or_create_media_hash_for_path (one record per path). Bounded: the enclosing loops of flatten_history, the writer's choice of "
-      "external manifest, and verify -pl.")
+      "external manifest, and verify -pl."
+      " Heap frames (vf/statics.py): every store to action / hash_string / hash_format / hash_entries anywhere in the package sits in a function whose declared frame contains the field, so what the contracts establish is not rewritten behind their back.", static=True)
 other("C19", "Proved: log_child_histories (non-verbose): exactly one line per generation of the history, in list order, carrying its number and "
       "creation date, directly after what was printed before, followed by the sections of the child histories (recursive contract over the "
       "predicate hist_ok); one iteration of the generation loop of info_for_single_file (non-verbose): a generation without a record for the "
